@@ -127,6 +127,20 @@ func genC02(c *Ctx) {
 			}
 		}
 	}
+	// (a3a) a COMPLETE materialisation first, then the early-stopped one with the reader inside a slow Emit, then a third:
+	//       whatever the stage remembers of a run that reached the end must not shorten a later run's wait for its reader
+	for _, op := range []string{"buf", "cmap", "nest", "ccons", "pipe"} {
+		e := " limit=1"
+		if op == "ccons" {
+			e = " mf=0"
+		}
+		if op == "pipe" {
+			e = " reads=2"
+		}
+		for n := 3; n <= 4; n++ {
+			emit(true, fmt.Sprintf("%s c=1 n=%d size=3 sync=1 mg=0 park=1%s slowret=150 firstfull=1 rep=3 script=-", op, n+4, e))
+		}
+	}
 	// (a3b) the same with a source that stays inside its cancelled Emit call for well over two seconds: however long the
 	//       reader needs, the terminal returns only after it has left the provider (no grace period)
 	for _, op := range []string{"pipe", "buf", "cmap", "ccons"} {
